@@ -692,6 +692,10 @@ class Printer:
                 e = c['inner'][0]
                 if e.get('kind') == 'CXXDefaultInitExpr':
                     e = e['inner'][0] if e.get('inner') else None
+                    if e is None and getattr(self, 'field_init', None):
+                        # clang does not repeat the default member initialiser (`bool m_stop{false};`) under the
+                        # constructor: it is read from the field's own declaration in the same TU
+                        e = self.field_init(d.get('name'), any_['name'])
                     if e is None:
                         raise Unsupported(f'default member initialiser of {any_["name"]} is not in the dump')
                 pre += f'  self->{any_["name"]} = {self.expr(e)};\n' + self.after('  ')
